@@ -7,7 +7,11 @@ CHECK = {'pkgs': ['tbls'],
  'engine': 'enumx',
  'technique': 'exhaustive small-scope enumeration of (n,t) configurations, share subsets and single substitutions (foreign share, sibling share, '
               'wrong index, other message, too few partials) against the real tbls/herumi implementation, plus the history shape "verify under A, verify under k other '
-              'distinct keys, verify under A again" for every k up to K in one process',
+              'distinct keys, verify under A again" for every k up to K in one process; plus every sequence of two / three Verify and VerifyAggregate calls (with '
+              'repetition, each on fresh keys) over an alphabet of queries that differ from an accepted query in exactly one component - a RELATED message '
+              '(prefix, zero-padded, one byte changed), another key, another valid signature - judged differentially against the verdict by construction '
+              '(= the verdict of the same query as the first call on fresh keys); plus a large-share-index dimension: splits with n just below, at and '
+              'just above 2^7, 2^8, 2^15, 2^16 (lazily built fixtures) with the subsets that contain the highest ids and the neighbours of each boundary',
  'claim': 'for n in 2..7 (quick: 2..5), every 2<=t<=n, 6 secrets (1, 2, r-1, two fixed 32-byte patterns, one GenerateInsecureKey value), 3 messages '
           '(empty, 32 B, 200 B) and both splitters (production ThresholdSplit with fresh random coefficients, ThresholdSplitInsecure with a seeded '
           'reader): EVERY subset S of the shares with |S|>=t gives RecoverSecret(S)=secret, RecoverPubkey(public shares of S)='
@@ -20,16 +24,43 @@ CHECK = {'pkgs': ['tbls'],
           'every size-t subset for n=8 and on the first-t and last-t subsets for n=9,10; the quick tier also runs n=10 (the first two-digit share index) with '
           't in {2,7,10} on two secrets. Large clusters (size-dependent code paths such as chunked or parallel decoding show only above some count of partials): n in 11..25 with t in {2, ceil(2n/3), n} and n in {31,32,33,40} with t=2 (thorough: every n in 11..66 and n in {100,127,128,129,255,256,257}), two secrets, both splitters: for EVERY size k in t..n the first-k, last-k and an evenly spread k-subset are recovered and aggregated (all three messages) with the positive oracle; substitutions at the first, middle and last position of the first-t and last-t subsets; the empty set and size t-1 as too few. History dimension (the functions are pure; a process-wide cache of bounded capacity shows a defect only beyond its '
           'capacity): after each of K=10000 (thorough 70000) further distinct keys has been verified, the genuine signature of the first key still '
-          'verifies, the newest key\'s signature over the same message is refused under the first key and vice versa, and the newest key\'s own verifies',
+          'verifies, the newest key\'s signature over the same message is refused under the first key and vice versa, and the newest key\'s own verifies. '
+          'Call histories over related queries (a memo / negative cache / reused buffer whose key does not identify the whole query - message truncated or '
+          'padded to a fixed width, only its length, keys or signature left out - is right for every single call and every sequence of unrelated calls): '
+          'message pairs (m,m\') built from a pattern P of non-zero bytes with lengths L={0,1,31,32,33,63,64,65,200}: prefix m=P[:a],m\'=P[:b]; zeropad '
+          'm=P[:a],m\'=m+(b-a) zero bytes; flip m=P[:l], m\'=m with byte j changed. Quick: (a,b) adjacent in L or in {(0,32),(32,64),(32,200),(1,200)} '
+          '(12 prefix + 12 zeropad pairs), flip for l in {1,32,33,64,65,200} at j in {0,l-1} (11 pairs); thorough: all 36+36 (a<b) pairs and flip for every l>=1 '
+          'at j in {0,31,32,63,64,l/2,l-1} (31 pairs). Query alphabet (14): Verify family V(A,m,sA(m)) V(A,m\',sA(m)) V(A,m\',sA(m\')) V(A,m,sA(m\')) '
+          'V(B,m,sA(m)) V(B,m,sB(m)) V(A,m,sB(m)); VerifyAggregate family VA([A,B],m,sAB(m)) VA([A,B],m\',sAB(m)) VA([A,B],m\',sAB(m\')) VA([A,B],m,sAB(m\')) '
+          'VA([A],m,sAB(m)) VA([A],m,sA(m)) VA([A,B],m,sA(m)) (sAB = Aggregate of both signatures). For EVERY message pair: all 14^2 ordered pairs of '
+          'queries with plain keys and all 7^2 pairs of the Verify family with A = group key of a production 2-of-3 split and sA = ThresholdAggregate of two '
+          'partials (which two rotates); all 7^3 triples within each family for the 11 pairs around the 32-byte signing-root size ((0,1),(31,32),(32,33) prefix '
+          'and zeropad, zeropad (0,32), flip (32,31),(33,32),(33,0),(64,63)) in quick, for every message pair in thorough (there also the threshold variant for the '
+          '11). Every history runs on a fresh fixture (keys never used before in the process, P salted with the fixture number); EVERY call of a history '
+          'must return the verdict by construction (accepted iff the signature was made by Sign with exactly the queried keys over exactly the queried '
+          'message); a deviation is re-run 3 times on fresh fixtures and classified by running the deviating query alone (history=needed|none). Sign, '
+          'SecretToPublicKey, Aggregate, ThresholdSplit and ThresholdAggregate are called in history-dependent order while fixtures are filled lazily, so a '
+          'history dependence there shows as a refused genuine signature. Large share indices (an id conversion of bounded width on one side only is '
+          'invisible below its boundary): n in {127,128,129,255,256,257,300,32767,32768,32769,65535,65536,65537} x t in {2,3} (thorough: 2^k-1,2^k,2^k+1 for '
+          'every k in 7..16, 300, 1000, 10000 x t in {2,3,4,7}), both splitters, one of the two pattern secrets: subsets first-t, last-t, {1..t-1,n}, '
+          '{1,n-t+2..n}, {1..t,n}, every window of t consecutive ids containing 2^7, 2^8, 2^15 or 2^16 and the window just above it, {n-2^k,n}+smallest ids: '
+          'positive oracle on all of them (3 messages); on every size-t subset at its highest id p one substitution of every kind (foreign, foreign-same, '
+          'other-msg; sibling and wrong-index with the ids p+-2^k, p+-1, 1, n, n+1); too few: {n} and the last t-1. Not covered: share ids beyond 65537 '
+          '(2^31, 2^32 boundaries - the split would have to produce that many shares)',
  'trusted': 'the oracle is black-box on the exported tbls functions (byte equality of their outputs, nil/non-nil of Verify); Sign(secret,msg) and '
             'SecretToPublicKey(secret) of the undivided key are taken as the reference values; substitutions whose substituted share happens to '
             'equal the genuine one (probability ~2^-255, or a degenerate split) are skipped and counted, a refused split/secret is noted, not alarmed; '
-            'every candidate is re-run 3 times on freshly built splits before it is reported',
+            'every candidate is re-run 3 times on freshly built splits before it is reported; call histories: the reference verdict of a query is fixed by '
+            'how its signature was built with the real Sign / Aggregate / ThresholdAggregate (m != m\' and A != B by construction), process-wide state left by '
+            'earlier histories concerns other keys and (salted) other messages, except for the messages of length 0 and 1 which cannot be salted apart',
  'rule': 'outer product (n,t,secret) x splitter; inner: all share-id subsets by size x messages x substitution (kind,position,argument). One '
          'evaluation = one case run through the real library. Distinct non-trivial classes are the keys "split:n,t", "pos:recover:n,t,|S|", '
          '"pos:agg:n,t,|S|" (|S|>=t, really recovering/aggregating), "neg:<kind>:n,t" for kind in foreign, foreign-same, sibling, wrong-index, '
          'other-msg (a really tampered map reached Aggregate/Verify) and "neg:fewer:n,t,|S|"; secrets, messages, subsets of equal size and '
-         'positions are NOT counted as distinct. Counters verify_accepted / neg_verify_rejected/<kind> / neg_aggregate_refused/<kind> show that '
+         'positions are NOT counted as distinct; the large-index cases use the same keys (their n). Call histories: one evaluation = one history on a '
+         'fresh fixture (all its calls judged), class "callhist:<relation>:<a>,<b>:<part>" with part in pairs, pairs-threshold, triples-V, triples-VA, '
+         'triples-V-threshold; counters callhist_accepted / callhist_refused / callhist_first_calls_on_a_fresh_fixture / callhist_calls_after_history. '
+         'Shard 0 runs the process-long capacity history only, all other units go round robin over the remaining shards. Counters verify_accepted / neg_verify_rejected/<kind> / neg_aggregate_refused/<kind> show that '
          'both outcomes of Verify really occurred',
  'budget_s': {'quick': 100, 'thorough': 1500}}
 CHECK["assumptions"] = ENUMX_ASSUME + [
